@@ -24,8 +24,9 @@ CHECKS = {
     },
     "C06": {
         "level": "exploration",
+        "needs_cli": True,
         "rule": "exhaustive: all WL(k) and BL(k) layouts x {single,two-pass} x block/compression variants, plus multi-chromosome cases; total summary and item count read through the real reader compared with per-base statistics of the input. non-trivial = >=2 items (bigWig) / overlapping entries or several chromosomes (bigBed)",
-        "require": ["wig_cases", "bed_cases", "bed_cases_with_overlap", "files_with_2+_chromosomes"],
+        "require": ["wig_cases", "bed_cases", "bed_cases_with_overlap", "files_with_2+_chromosomes", "tool_info_runs"],
         "assumptions": E1_ASSUME,
     },
     "C07": {
